@@ -666,21 +666,22 @@ where
 {
     fn decode<D: Decoder + ?Sized>(
         decoder: &mut D,
-        _plugin: &Plugin,
-        _session: &mut Session,
+        plugin: &Plugin,
+        session: &mut Session,
     ) -> io::Result<Self> {
         use bitvec::{mem::bits_of, vec::BitVec};
-        use std::io::Write;
 
+        // Mirror of `Encode for BitVec`: the bit length, followed by every
+        // element of the underlying storage encoded with `T::encode`.
         let len = decoder.read_usize()?;
-        let number_of_bytes = len.div_ceil(bits_of::<u8>());
-        let byte_vec = decoder.read_raw_bytes(number_of_bytes)?;
-        let mut vec = BitVec::new(); // Write will resize as needed.
-        let written = vec.write(byte_vec.as_slice())?;
-        assert!(
-            written == number_of_bytes,
-            "Should write the same number of bytes ({written}) as had been stored ({number_of_bytes})"
-        );
+        let number_of_elements = len.div_ceil(bits_of::<T>());
+
+        let mut elements = Vec::with_capacity(number_of_elements);
+        for _ in 0..number_of_elements {
+            elements.push(T::decode(decoder, plugin, session)?);
+        }
+
+        let mut vec = BitVec::<T, O>::from_vec(elements);
         vec.truncate(len); // Ensure trailing bits aren't added.
         Ok(vec)
     }
